@@ -6,7 +6,7 @@
    from the current one at the PENDING properties (existentially, per tree); each walk marks every evaluator-driven leaf that reads
    its property (link invariant: every such leaf is subscribed there), after which the property is no longer pending. *)
 From KDB Require Import Util UtilProofs PropDefs PropFlags PropLink PropLinkBasics PropLinkOps PropLinkTheorems PropSim.
-From KDB Require PropAbs PropAbsProofs PropAbsLazy PropProofs PropReg PropGrow PropSimLazy PropGrowMore PropGrowLazyMore.
+From KDB Require PropAbs PropAbsProofs PropAbsLazy PropProofs PropReg PropGrow PropSimLazy PropGrowMore PropGrowLazyMore PropLinkMove PropMove PropMoveLazy.
 Module A := PropAbs.
 Module AP := PropAbsProofs.
 Module L := PropAbsLazy.
@@ -756,16 +756,70 @@ Section MixedLazy.
     - intros t pos ser label act Hs. exact (Hna t pos ser label act (Sw t pos ser _ Hs)).
   Qed.
 
+  (* move construction of ANY property (an input with readers of either kind, a bound one, an observed one): every tree is the old one
+     with the source renamed to the destination, which holds the source's value *)
+  Lemma ML_movector fuel w src dst w' :
+    ML w -> NOEMIT w -> step1 fn rtl fuel w (PMoveCtor src dst) = (w', None) -> LSIMP w' /\ MS w' /\ NOACT w'.
+  Proof.
+    intros HML HNE H. pose proof HML as (Hinv & Hna & HS & HM).
+    destruct (PropMove.movector_shape fn rtl fuel w src dst w' Hinv Hna HNE H) as (s0 & dn & sn & Hs & Hd & Hne & Vd & Ud & Vs & Us & PW & Sw & HB & _ & HT & EV & LEN).
+    assert (Pd : pview w dst = None) by (unfold pview; rewrite Hd; reflexivity).
+    split; [|split].
+    - intros b x' Hx' He. pose proof (HB b) as Hb. rewrite Hx' in Hb. destruct (get_bind w b) as [x|] eqn:Hx; [|destruct Hb].
+      destruct Hb as (Ee & Ea). rewrite Ea. rewrite Ee in He. pose proof (HS b x Hx He) as Hn. destruct (abs_tree (b_root x)); [discriminate|contradiction].
+    - intros b T' (x' & Hx' & He & Ha). pose proof (HB b) as Hb. rewrite Hx' in Hb. destruct (get_bind w b) as [x|] eqn:Hx; [|destruct Hb].
+      destruct Hb as (Ee & Ea). rewrite Ee in He. rewrite Ea in Ha. destruct (abs_tree (b_root x)) as [T|] eqn:HT0; [|discriminate Ha]. inversion Ha; subst T'.
+      apply (PropMoveLazy.aren_sound fn (PropMove.rn src dst) (envof w)); [|apply (HM b T); exists x; auto].
+      intros p lid Hi. destruct (PropSim.abs_leaf_in (b_root x) T p lid HT0 Hi) as (lf & Hlf & Htg & _).
+      assert (Hl : has_leaf w b lf) by (exists (leaves (b_root x)), (b_target x); split; [unfold bview; rewrite Hx; reflexivity|exact Hlf]).
+      assert (Hpd : p <> dst) by (intros ->; exact (pi_leafx _ _ _ _ _ _ _ Hinv _ _ _ Hl Htg Pd)).
+      unfold envof, PropMove.rn. rewrite PW. destruct (Nat.eqb_spec p src) as [->|Hps].
+      + rewrite Nat.eqb_refl, Hs, Vd. reflexivity.
+      + destruct (Nat.eqb_spec p dst); [contradiction|]. destruct (Nat.eqb_spec p src); [contradiction|]. reflexivity.
+    - intros t pos ser label act Hsl. apply Sw in Hsl. exact (Hna t pos ser label act Hsl).
+  Qed.
+
+  (* move ASSIGNMENT over a destination that no live binding reads (whatever it holds: a value, observers, a binding of its own - which is
+     destroyed): the surviving trees are the old ones with the source renamed to the destination *)
+  Lemma ML_moveassign fuel w dst src w' :
+    ML w -> NOEMIT w -> (forall b lf, has_leaf w b lf -> lf_tg lf <> Some dst) ->
+    step1 fn rtl fuel w (PMoveAssign dst src) = (w', None) -> LSIMP w' /\ MS w' /\ NOACT w'.
+  Proof.
+    intros HML HNE Hnr H. pose proof HML as (Hinv & Hna & HS & HM).
+    destruct (PropMove.moveassign_shape fn rtl fuel w dst src w' Hinv Hna HNE Hnr H)
+      as (s0 & d0 & dn & sn & Hs & Hd & Hne & Vd & Ud & Vs & Us & PW & Sw & HB & HT & HD & LEN).
+    (* a binding of the new world is the image of a binding of the old one *)
+    assert (Old : forall b x', get_bind w' b = Some x' -> exists x, get_bind w b = Some x /\ b_evp x' = b_evp x /\
+                    abs_tree (b_root x') = option_map (PropMove.aren (PropMove.rn src dst)) (abs_tree (b_root x))).
+    { intros b x' Hx'. assert (Hnb : pr_updater d0 <> Some b).
+      { intros E. rewrite E in HD. destruct HD as (x & _ & Hn & _). rewrite Hn in Hx'. discriminate Hx'. }
+      pose proof (HB b Hnb) as Hb. rewrite Hx' in Hb. destruct (get_bind w b) as [x|] eqn:Hx; [|destruct Hb]. exists x. split; [reflexivity|exact Hb]. }
+    split; [|split].
+    - intros b x' Hx' He. destruct (Old b x' Hx') as (x & Hx & Ee & Ea). rewrite Ea. rewrite Ee in He.
+      pose proof (HS b x Hx He) as Hn. destruct (abs_tree (b_root x)); [discriminate|contradiction].
+    - intros b T' (x' & Hx' & He & Ha). destruct (Old b x' Hx') as (x & Hx & Ee & Ea). rewrite Ee in He. rewrite Ea in Ha.
+      destruct (abs_tree (b_root x)) as [T|] eqn:HT0; [|discriminate Ha]. inversion Ha; subst T'.
+      apply (PropMoveLazy.aren_sound fn (PropMove.rn src dst) (envof w)); [|apply (HM b T); exists x; auto].
+      intros p lid Hi. destruct (PropSim.abs_leaf_in (b_root x) T p lid HT0 Hi) as (lf & Hlf & Htg & _).
+      assert (Hl : has_leaf w b lf) by (exists (leaves (b_root x)), (b_target x); split; [unfold bview; rewrite Hx; reflexivity|exact Hlf]).
+      assert (Hpd : p <> dst) by (intros ->; exact (Hnr b lf Hl Htg)).
+      unfold envof, PropMove.rn. rewrite PW. destruct (Nat.eqb_spec p src) as [->|Hps].
+      + rewrite Nat.eqb_refl, Hs, Vd. reflexivity.
+      + destruct (Nat.eqb_spec p dst); [contradiction|]. destruct (Nat.eqb_spec p src); [contradiction|]. reflexivity.
+    - intros t pos ser label act Hsl. apply Sw in Hsl. exact (Hna t pos ser label act Hsl).
+  Qed.
+
   (* ---- histories: new properties, assignments, reads, plain observers, evaluator objects, fresh properties bound immediately or
      through an explicit evaluator, evaluateAll of explicit evaluators, reset() ---- *)
   Definition grow_op5 (w : world) (o : op) : Prop :=
     match o with
-    | PNew _ _ | PSet _ _ _ | PGet _ | PHasBinding _ | BevNew _ | BevCopy _ _ | PReset _ | PAssignFrom _ _ | PUnobserve _ => True
+    | PNew _ _ | PSet _ _ _ | PGet _ | PHasBinding _ | BevNew _ | BevCopy _ _ | BevDel _ | PReset _ | PAssignFrom _ _ | PUnobserve _ | PMoveCtor _ _ => True
     | PObserve _ _ _ _ None => True
     | PBind p _ m => lookup (w_props w) p = None /\
                      match m with MImmediate => True | MEvaluator e0 => exists id, lookup (w_bevs w) e0 = Some id /\ id <> 0 end
     | BevEvalAll e0 => exists id, lookup (w_bevs w) e0 = Some id /\ id <> 0
     | PDel p => PropGrowMore.no_reader_b w p = true      (* destruction of a property no live binding reads *)
+    | PMoveAssign dst _ => PropGrowMore.no_reader_b w dst = true      (* the overwritten property likewise *)
     | _ => False
     end.
 
@@ -801,9 +855,14 @@ Section MixedLazy.
     - (* PBind *) destruct Ho as (Hp & Hmode). destruct (ML_bind_fresh fuel w p e m w' HML HNE Hp Hmode H) as (A1 & A2 & A3).
       split; [exact Hinv'|]. split; [exact A3|]. split; assumption.
     - (* PReset *) destruct (ML_reset fuel w p w' HML H) as (A1 & A2 & A3). split; [exact Hinv'|]. split; [exact A3|]. split; assumption.
+    - (* PMoveCtor *) destruct (ML_movector fuel w src dst w' HML HNE H) as (A1 & A2 & A3). split; [exact Hinv'|]. split; [exact A3|]. split; assumption.
+    - (* PMoveAssign *) destruct (ML_moveassign fuel w dst src w' HML HNE (PropGrowMore.no_reader_sound w dst Ho) H) as (A1 & A2 & A3).
+      split; [exact Hinv'|]. split; [exact A3|]. split; assumption.
     - (* BevNew *) cbn [step1] in H. destruct (lookup (w_bevs w) e); [discriminate H|]. inversion H; subst w'. apply Same; reflexivity.
     - (* BevCopy *) cbn [step1] in H. destruct (lookup (w_bevs w) src); [|discriminate H]. destruct (lookup (w_bevs w) dst); [discriminate H|].
       inversion H; subst w'. apply Same; reflexivity.
+    - (* BevDel: the evaluator object goes, what it shares with its copies and its bindings stays *)
+      cbn [step1] in H. destruct (lookup (w_bevs w) e); [|discriminate H]. inversion H; subst w'. apply Same; reflexivity.
     - (* BevEvalAll *) destruct Ho as (id & He & Hid). exact (ML_evalall fuel w e id w' HML HR He Hid H).
   Qed.
 
